@@ -963,58 +963,53 @@ pub fn points() -> [u64; 8] {
 
 // ---------------------------------------------------------------------- ping-pong (C01, hardware reordering)
 
-/// A tight two-party loop with *uninstrumented* children: a persistent waker thread publishes a
-/// round number and invokes the child's waker; the consumer is an honest executor. After every
-/// round, once the waker thread is done and the task has not been notified again, the child must
-/// have seen the round number. No read-modify-write and no SeqCst access happens between the
-/// crate clearing a slot's queued flag and the child reading its state, so a store-to-load
-/// reordering the crate's own orderings permit (x86 has exactly this one) shows as a lost wake-up.
+/// A tight two-party loop with an *uninstrumented* child: a persistent waker thread publishes a
+/// value and invokes the child's waker, twice per round with a short varying pause in between,
+/// so that the second wake lands while the consumer is busy with the first one. When the waker
+/// thread is done and the collection has been polled until idle, the child must have seen the
+/// last value. Between the crate clearing the slot's queued flag and the child reading its state
+/// the harness executes no read-modify-write and no fence, so a store-to-load reordering that the
+/// crate's own orderings permit (x86 has exactly this one) shows up as a lost wake-up.
 pub struct PingStats {
     pub rounds: u64,
     pub polls: u64,
     pub lost: Vec<String>,
-    pub double_wakes: u64,
 }
 
-struct PingKid {
-    state: AtomicU64,
-    seen: AtomicU64,
-    waker: Mutex<Option<Waker>>,
-    published: AtomicBool,
-    stop: AtomicBool,
-}
-struct PingChild {
-    id: usize,
-    sh: Arc<PingShared>,
-}
+/// own cache line, so that the harness's variables do not serialise the two threads
+#[repr(align(128))]
+struct Padded<T>(T);
+
 struct PingShared {
-    kids: Vec<PingKid>,
-    woken: AtomicBool,
-    go: AtomicU64,
-    done: Vec<AtomicU64>,
+    state: Padded<AtomicU64>,
+    seen: Padded<AtomicU64>,
+    go: Padded<AtomicU64>,
+    done: Padded<AtomicU64>,
+    notified: Padded<AtomicU64>,
+    waker: std::sync::OnceLock<Waker>,
+    stop: AtomicBool,
 }
 struct PingTask(Arc<PingShared>);
 impl Wake for PingTask {
     fn wake(self: Arc<Self>) {
-        self.0.woken.store(true, Release);
+        self.wake_by_ref()
     }
     fn wake_by_ref(self: &Arc<Self>) {
-        self.0.woken.store(true, Release);
+        self.0.notified.0.fetch_add(1, SeqCst);
     }
 }
+struct PingChild(Arc<PingShared>);
 impl Future for PingChild {
     type Output = usize;
     fn poll(self: Pin<&mut Self>, cx: &mut Context<'_>) -> Poll<usize> {
-        let k = &self.sh.kids[self.id];
-        if !k.published.load(Relaxed) {
-            *k.waker.lock().unwrap() = Some(cx.waker().clone());
-            k.published.store(true, Release);
+        // look at the state first thing (plain acquire load) and remember what was seen
+        let v = self.0.state.0.load(Acquire);
+        self.0.seen.0.store(v, Relaxed);
+        if self.0.waker.get().is_none() {
+            let _ = self.0.waker.set(cx.waker().clone());
         }
-        // the only thing a poll does: look at the state (plain acquire load) and remember it
-        let s = k.state.load(Acquire);
-        k.seen.store(s, Relaxed);
-        if k.stop.load(Relaxed) {
-            return Poll::Ready(self.id);
+        if self.0.stop.load(Relaxed) {
+            return Poll::Ready(0);
         }
         Poll::Pending
     }
@@ -1022,119 +1017,129 @@ impl Future for PingChild {
 
 pub fn pingpong(seed: u64, rounds: u64, budget_ms: u64) -> PingStats {
     let mut rng = Rng::new(seed);
-    let n = rng.range(1, 3);
-    let threads = rng.range(1, 2);
     let sh = Arc::new(PingShared {
-        kids: (0..n).map(|_| PingKid { state: AtomicU64::new(0), seen: AtomicU64::new(0), waker: Mutex::new(None), published: AtomicBool::new(false), stop: AtomicBool::new(false) }).collect(),
-        woken: AtomicBool::new(false),
-        go: AtomicU64::new(0),
-        done: (0..threads).map(|_| AtomicU64::new(0)).collect(),
+        state: Padded(AtomicU64::new(0)),
+        seen: Padded(AtomicU64::new(0)),
+        go: Padded(AtomicU64::new(0)),
+        done: Padded(AtomicU64::new(0)),
+        notified: Padded(AtomicU64::new(0)),
+        waker: std::sync::OnceLock::new(),
+        stop: AtomicBool::new(false),
     });
-    let unbounded = rng.chance(1, 3);
-    let mut fub = FuturesUnorderedBounded::new(n);
-    let mut fu = FuturesUnordered::with_capacity(1);
-    for i in 0..n {
-        if unbounded {
-            fu.push(PingChild { id: i, sh: sh.clone() });
-        } else {
-            fub.push(PingChild { id: i, sh: sh.clone() });
-        }
+    // subject: bounded of capacity 1..4, or unbounded (first group of capacity 1 or 32)
+    let shape = rng.below(4);
+    let eager = rng.chance(1, 2);
+    let mut fub = FuturesUnorderedBounded::new(if shape == 1 { 4 } else { 1 });
+    let mut fu = if shape == 3 { FuturesUnordered::new() } else { FuturesUnordered::with_capacity(1) };
+    if shape >= 2 {
+        fu.push(PingChild(sh.clone()));
+    } else {
+        fub.push(PingChild(sh.clone()));
     }
     let task = Waker::from(Arc::new(PingTask(sh.clone())));
-    let mut st = PingStats { rounds: 0, polls: 0, lost: Vec::new(), double_wakes: 0 };
+    let mut st = PingStats { rounds: 0, polls: 0, lost: Vec::new() };
     let mut cx = Context::from_waker(&task);
-    let mut poll_once = |st: &mut PingStats| {
-        st.polls += 1;
-        if unbounded {
-            let _ = Pin::new(&mut fu).poll_next(&mut cx);
-        } else {
-            let _ = Pin::new(&mut fub).poll_next(&mut cx);
-        }
-    };
-    poll_once(&mut st);
-    let mut handles = Vec::new();
-    for t in 0..threads {
-        let sh = sh.clone();
-        let tseed = seed ^ (t as u64 + 7);
-        handles.push(std::thread::spawn(move || {
-            let mut r = Rng::new(tseed);
-            let mut round = 0u64;
-            // wakers are taken once; from then on this thread touches no lock
-            let wakers: Vec<Waker> = sh.kids.iter().map(|k| k.waker.lock().unwrap().clone().expect("published by the first poll")).collect();
-            loop {
-                let g = sh.go.load(Acquire);
-                if g == u64::MAX {
-                    break;
-                }
-                if g == round {
-                    std::hint::spin_loop();
-                    continue;
-                }
-                round = g;
-                // each thread owns the children with index == t mod threads
-                for (c, k) in sh.kids.iter().enumerate() {
-                    if c % sh.done.len() != t {
-                        continue;
-                    }
-                    k.state.store(round, Release);
-                    wakers[c].wake_by_ref();
-                    if r.chance(1, 2) {
-                        // a second publish-and-wake in the same round (coalescing path)
-                        k.state.store(round, Release);
-                        wakers[c].wake_by_ref();
-                    }
-                }
-                sh.done[t].store(round, Release);
+    macro_rules! poll_once {
+        () => {{
+            st.polls += 1;
+            if shape >= 2 {
+                let _ = Pin::new(&mut fu).poll_next(&mut cx);
+            } else {
+                let _ = Pin::new(&mut fub).poll_next(&mut cx);
             }
-            drop(wakers);
-        }));
+        }};
     }
+    poll_once!();
+    let child_waker = sh.waker.get().expect("child polled").clone();
+    let sh2 = sh.clone();
+    let tseed = seed ^ 0x7777;
+    let h = std::thread::spawn(move || {
+        let sh = sh2;
+        let mut r = Rng::new(tseed);
+        let mut round = 0u64;
+        loop {
+            round += 1;
+            while sh.go.0.load(Acquire) < round {
+                if sh.stop.load(Relaxed) {
+                    return;
+                }
+                std::hint::spin_loop();
+            }
+            if sh.stop.load(Relaxed) {
+                return;
+            }
+            // event 1, wake
+            sh.state.0.store(2 * round - 1, Release);
+            child_waker.wake_by_ref();
+            let pause = match round & 3 {
+                0 => round % 64,
+                1 => r.below(24) as u64,
+                2 => r.below(200) as u64,
+                _ => 0,
+            };
+            for _ in 0..pause {
+                std::hint::spin_loop();
+            }
+            // event 2, wake
+            sh.state.0.store(2 * round, Release);
+            child_waker.wake_by_ref();
+            sh.done.0.store(round, Release);
+        }
+    });
     let t0 = std::time::Instant::now();
+    let mut consumed = sh.notified.0.load(Acquire);
     for round in 1..=rounds {
         if round % 4096 == 0 && t0.elapsed().as_millis() as u64 > budget_ms {
             break;
         }
         st.rounds = round;
-        sh.go.store(round, Release);
-        let mut spins = 0u64;
-        loop {
-            if sh.woken.swap(false, AcqRel) {
-                poll_once(&mut st);
-                continue;
+        sh.go.0.store(round, Release);
+        if eager {
+            // an executor may poll at any time: poll continuously while the waker thread works
+            while sh.done.0.load(Acquire) < round {
+                poll_once!();
             }
-            if sh.done.iter().all(|d| d.load(Acquire) == round) {
-                // every wake call of this round has returned; look once more at the flag
-                if sh.woken.swap(false, AcqRel) {
-                    poll_once(&mut st);
-                    continue;
+        } else {
+            // honest executor: one poll per notification
+            while sh.done.0.load(Acquire) < round {
+                let n = sh.notified.0.load(Acquire);
+                if n != consumed {
+                    consumed = n;
+                    poll_once!();
+                } else {
+                    std::hint::spin_loop();
                 }
+            }
+        }
+        // both wake calls have returned: every notification that is going to be delivered has
+        // been delivered; poll until idle
+        loop {
+            let n = sh.notified.0.load(Acquire);
+            if n == consumed && !eager {
                 break;
             }
-            spins += 1;
-            if spins % 64 == 0 {
-                std::thread::yield_now();
-            } else {
-                std::hint::spin_loop();
+            consumed = n;
+            poll_once!();
+            if eager {
+                poll_once!();
+                poll_once!();
+                consumed = sh.notified.0.load(Acquire);
+                break;
             }
         }
-        // quiescent: the task sleeps, nobody will wake it in this round any more
-        for (c, k) in sh.kids.iter().enumerate() {
-            let seen = k.seen.load(Relaxed);
-            if seen != round && st.lost.len() < 4 {
-                st.lost.push(format!("round {round}: child {c} was completed (state {round}) and woken on another thread; the task sleeps un-notified and the child last saw state {seen}"));
-            }
-        }
-        if !st.lost.is_empty() {
+        let seen = sh.seen.0.load(Relaxed);
+        if seen != 2 * round {
+            st.lost.push(format!(
+                "round {round} ({} executor, shape {shape}): state {} was published and the child's waker invoked on another thread (the call has returned); the collection is idle and the child's last poll saw state {seen}",
+                if eager { "eager" } else { "honest" },
+                2 * round
+            ));
             break;
         }
     }
-    sh.go.store(u64::MAX, Release);
-    for k in sh.kids.iter() {
-        k.stop.store(true, Relaxed);
-    }
-    for h in handles {
-        let _ = h.join();
-    }
+    sh.stop.store(true, SeqCst);
+    sh.go.0.store(u64::MAX, SeqCst);
+    let _ = h.join();
     drop(fub);
     drop(fu);
     st
